@@ -65,6 +65,9 @@ private def ev (i : Nat) (t : String) (n : String) : HEvent := { id := i, prev :
 example : WFHistory [ev 1 "ExecutionStarted" "", ev 2 "PassStateEntered" "P", ev 3 "PassStateExited" "P",
     ev 4 "ExecutionSucceeded" ""] = true := by decide
 example : WFHistory [ev 1 "ExecutionStarted" "", ev 2 "PassStateExited" "P"] = false := by decide
+/-- a state entered and never exited in a clean successful execution is rejected -/
+example : WFHistory [ev 1 "ExecutionStarted" "", ev 2 "PassStateEntered" "P", ev 3 "PassStateExited" "P",
+    ev 4 "PassStateEntered" "Q", ev 5 "ExecutionSucceeded" ""] = false := by decide
 example : WFHistory [ev 1 "ExecutionStarted" "", ev 3 "PassStateEntered" "P"] = false := by decide
 
 end Asl.C09
